@@ -366,7 +366,11 @@ func runCrash(c *Ctx) {
 			gojqBin = a[5:]
 		}
 	}
-	p := newPool(nw, deadline, 12*time.Second, gojqBin)
+	watchdog := 6 * time.Second
+	if c.Tier == "thorough" {
+		watchdog = 12 * time.Second
+	}
+	p := newPool(nw, deadline, watchdog, gojqBin)
 	var mu sync.Mutex
 	classes := map[string]int{}
 	var fails []failure
@@ -419,13 +423,38 @@ func runCrash(c *Ctx) {
 			submit("builtin", libCase(g.builtinQuery(i), g.input(), vars()))
 		}
 	}
-	// 3. mutations, grammar, command
+	// 2b. structured arguments: every family at every size 0..12 (below, at and above what the builtins expect)
+	svars := func(size int) []any {
+		switch g.r.Intn(4) {
+		case 0:
+			return []any{g.numArray(size, 10), timeFormats[g.r.Intn(len(timeFormats))], g.num()}
+		case 1:
+			return []any{g.pathValue(2), g.scalar(), g.entriesValue()}
+		case 2:
+			return []any{g.num(), g.num(), g.numArray(size, 30)}
+		}
+		return vars()
+	}
+	reps := max(n/5000, 3)
+	for rep := 0; rep < reps; rep++ {
+		for fam := 0; fam < 12; fam++ {
+			for size := 0; size <= 12; size++ {
+				q, in := g.structuredCase(fam, size)
+				submit("structured", libCase(q, in, svars(size)))
+			}
+		}
+	}
+	// 3. mutations, grammar, structured, command
 	for i := 0; i < n; i++ {
 		k := g.r.Intn(20)
 		if k == 19 && !g.r.Chance(1, 4) {
 			k = g.r.Intn(19) // child-process runs of the binary are slow: 1 case in 80
 		}
 		switch {
+		case k < 4:
+			size := g.r.Intn(13)
+			q, in := g.structuredCase(g.r.Intn(12), size)
+			submit("structured", libCase(q, in, svars(size)))
 		case k < 9:
 			cq := g.corpus[g.r.Intn(len(g.corpus))]
 			other := g.corpus[g.r.Intn(len(g.corpus))].query
@@ -553,7 +582,37 @@ func minimise(p *pool, f failure) string {
 		if cand := fmt.Sprintf("(lib %s %s ())", Hexs([]byte(q)), inS); same(cand) {
 			varS = "()"
 		}
-		return build(ddmin([]byte(q), build))
+		qb := ddmin([]byte(q), build)
+		// shrink an array input: drop elements, then replace elements by 0
+		if in := n.list[2]; in.isl && len(in.list) > 1 && in.list[0].atom == "a" {
+			elems := make([]string, 0, len(in.list)-1)
+			for _, e := range in.list[1:] {
+				elems = append(elems, sxString(e))
+			}
+			mk := func(es []string) string { return strings.TrimSpace("(a " + strings.Join(es, " ")) + ")" }
+			for i := len(elems) - 1; i >= 0 && budget > 0; i-- {
+				cand := append(append([]string(nil), elems[:i]...), elems[i+1:]...)
+				budget--
+				inS = mk(cand)
+				if same(build(qb)) {
+					elems = cand
+				}
+			}
+			for i := range elems {
+				if elems[i] == "(i 0)" || budget <= 0 {
+					continue
+				}
+				cand := append([]string(nil), elems...)
+				cand[i] = "(i 0)"
+				budget--
+				inS = mk(cand)
+				if same(build(qb)) {
+					elems = cand
+				}
+			}
+			inS = mk(elems)
+		}
+		return build(qb)
 	case "cli", "bin":
 		kind := n.list[0].atom
 		args, _ := unhexList(n.list[1])
